@@ -45,14 +45,27 @@ def check(chk):
                 bad.append('known=%s is_up=%s counted=%s' % (known, up, got))
     chk.judge(not bad, 'C43.peer', guard, 'peer counted iff known and not marked down, over 2 x {None, False, True}',
               'the peer guard `%s` decides wrongly for %s: a host that was never marked (is_up None) must still have to agree, a down host must not' % (src(guard.test), '; '.join(bad)))
-    chk.judge(src(peer_add[0].func.value) == 'versions[schema_ver]' and 'peer = self._cluster.metadata.get_host(endpoint)' in src(gm) and "schema_ver = row.get('schema_version')" in src(gm),
-              'C43.peer', gm, 'peer version keyed by the row\'s schema_version, host looked up by the row endpoint', 'peer bookkeeping changed')
-    loops = [n for n in body_walk(gm) if isinstance(n, ast.For) and src(n.iter) == 'peers_result']
-    good = len(loops) == 1 and isinstance(loops[0].body[1], ast.If) and src(loops[0].body[1].test) == 'not schema_ver' and isinstance(loops[0].body[1].body[0], ast.Continue)
-    chk.judge(good, 'C43.peer', gm, 'peer rows without a schema version are skipped', 'empty peer versions are counted')
-    lg = parent(parent(local_add[0]))
-    chk.judge(isinstance(lg, ast.If) and src(lg.test) in ("local_row.get('schema_version')", 'local_row.get("schema_version")') and
-              src(local_add[0].func.value) in ("versions[local_row.get('schema_version')]", 'versions[local_row.get("schema_version")]'), 'C43.peer', gm,
+    from .. import sem as _sem43
+    g43, fl43 = _sem43.flow_of(gm)
+
+    def _key_of(call):
+        k = call.func.value.slice
+        txt = src(k)
+        if isinstance(k, ast.Name):
+            ds = [st for st in body_walk(gm) if isinstance(st, ast.Assign) and len(st.targets) == 1 and src(st.targets[0]) == k.id]
+            if len(ds) == 1:
+                return txt, src(ds[0].value).replace('"', "'")
+        return txt, txt.replace('"', "'")
+    pk, pk_def = _key_of(peer_add[0])
+    pnode = _sem43.node_of(g43, peer_add[0])
+    p_states = list(fl43.at(pnode)) if pnode is not None else []
+    chk.judge(pk_def == "row.get('schema_version')" and 'peer = self._cluster.metadata.get_host(endpoint)' in src(gm), 'C43.peer', gm,
+              'peer version keyed by the row\'s schema_version, host looked up by the row endpoint', 'peer bookkeeping changed')
+    chk.judge(bool(p_states) and all(fa.knows(pk) is True for fa, _c in p_states), 'C43.peer', gm, 'peer rows without a schema version are skipped', 'empty peer versions are counted')
+    lk, lk_def = _key_of(local_add[0])
+    lnode = _sem43.node_of(g43, local_add[0])
+    l_states = list(fl43.at(lnode)) if lnode is not None else []
+    chk.judge(lk_def == "local_row.get('schema_version')" and bool(l_states) and all(fa.knows(lk) is True or fa.knows("local_row.get('schema_version')") is True for fa, _c in l_states), 'C43.peer', gm,
               'control node\'s own schema version is counted', 'local version not counted')
     chk.judge(not [n for n in body_walk(gm) if isinstance(n, ast.Call) and isinstance(n.func, ast.Attribute) and n.func.attr in ('pop', 'clear', 'discard', 'remove') and 'versions' in src(n.func.value)] and
               len([n for n in body_walk(gm) if isinstance(n, ast.Assign) and src(n.targets[0]) == 'versions']) == 1, 'C43.verdict', gm, 'versions only grows', 'versions is pruned')
@@ -65,7 +78,7 @@ def check(chk):
             chk.judge(all(fa.knows('len(versions) == 1') is True for fa, _ in fl.at(r)), 'C43.verdict', r.ast, 'return None only when exactly one version',
                       'agreement is reported without exactly one distinct version')
         else:
-            chk.judge(all(fa.knows('len(versions) == 1') is False for fa, _ in fl.at(r)) and isinstance(v, ast.Call) and src(v.func) == 'dict', 'C43.verdict', r.ast,
+            chk.judge(all(fa.knows('len(versions) == 1') is False for fa, _ in fl.at(r)) and (isinstance(v, ast.DictComp) or (isinstance(v, ast.Call) and src(v.func) == 'dict')), 'C43.verdict', r.ast,
                       'mismatch dict (never None) otherwise', 'a mismatch can be reported as None')
     chk.require('C43.verdict', 3)
     # wait loop
